@@ -188,15 +188,47 @@ func rulePAIRpar1(w *World, r *Report) {
 			}
 		}
 	}
-	r.floor("PAIR", "reedsolomon.New call sites in par1", len(sites), 2)
+	// a private wrapper around the constructor stands for its call sites: the shard counts are
+	// what the callers pass, the options what the wrapper passes
+	type use struct {
+		fn   *ssa.Function
+		data ssa.Value
+	}
+	uses := map[int][]use{}
+	nUses := 0
+	for i, s := range sites {
+		args := s.c.Common().Args
+		var us []use
+		if p, ok := stripAllConv(args[0]).(*ssa.Parameter); ok && s.fn.Object() != nil && !s.fn.Object().Exported() && len(w.callSites(s.fn)) > 0 {
+			idx := -1
+			for k, q := range s.fn.Params {
+				if q == p {
+					idx = k
+				}
+			}
+			for _, cs := range w.callSites(s.fn) {
+				if idx >= 0 && idx < len(cs.Common().Args) {
+					us = append(us, use{cs.Parent(), cs.Common().Args[idx]})
+				}
+			}
+		}
+		if len(us) == 0 {
+			us = []use{{s.fn, args[0]}}
+		}
+		uses[i] = us
+		nUses += len(us)
+	}
+	r.floor("PAIR", "reedsolomon.New call sites in par1", nUses, 2)
 	hasEnc, hasDec := false, false
 	for i, s := range sites {
 		key := fmt.Sprintf("par1:coder-constructor:%s#%d", shortName(s.fn), i)
-		if strings.Contains(shortName(s.fn), "Encoder") {
-			hasEnc = true
-		}
-		if strings.Contains(shortName(s.fn), "Decoder") {
-			hasDec = true
+		for _, u := range uses[i] {
+			if strings.Contains(shortName(u.fn), "Encoder") {
+				hasEnc = true
+			}
+			if strings.Contains(shortName(u.fn), "Decoder") {
+				hasDec = true
+			}
 		}
 		// options: exactly one, the result of WithPAR1Matrix()
 		args := s.c.Common().Args
@@ -214,8 +246,12 @@ func rulePAIRpar1(w *World, r *Report) {
 			})
 		}
 		// shard counts: data = len(fileData), parity = volumeCount / len(parityData)
-		d := lenOperandPath(args[0])
-		okData := strings.HasSuffix(d.Path, ".fileData")
+		okData := true
+		for _, u := range uses[i] {
+			if !strings.HasSuffix(lenOperandPath(u.data).Path, ".fileData") {
+				okData = false
+			}
+		}
 		if n == 1 && opt == "WithPAR1Matrix" && okData {
 			r.ok("PAIR", key, w.ipos(s.c), "reedsolomon.New(len(fileData), parity count, WithPAR1Matrix())")
 		} else if !okData {
